@@ -48,7 +48,10 @@ def main(argv):
             case = data['case']
             obs = []
             for _ in range(2):  # replay twice: the observation must be deterministic
-                res = mod.run_case(case) if hasattr(mod, 'run_case') else mod.replay(case)
+                fn = 'run_case' if hasattr(mod, 'run_case') else 'replay'
+                hist = list(case.get('_session') or []) if isinstance(case, dict) else []
+                bare = {k: v for k, v in case.items() if k != '_session'} if isinstance(case, dict) else case
+                res = common.run_isolated(mod.__name__, fn, hist + [bare])     # a fresh process each time
                 obs.append(sorted((s, m) for s, m in res.get('viol', ())))
             if obs[0] != obs[1]:
                 print('HARNESS-ERROR nondeterministic replay of %s' % replay)
